@@ -121,22 +121,23 @@ theorem valid_link (L : Lang) (s : St) (hv : Valid L s) (l : Nat) (hl : l ∈ s.
   exact ⟨c, hc, hi.cls, hi.lf, hi.rf, hi.left_type, hi.right_type, hi.left_count, hi.right_count,
     hv.left_nodup l hl, hv.right_nodup l hl⟩
 
-/-- `okCount`: no maximum, or the maximum `0` (which emits no `maxItems`), or at most `k` members -/
-theorem okCount_iff (m : Option Nat) (n : Nat) : okCount m n = true ↔ (m = none ∨ m = some 0 ∨ ∃ k, m = some k ∧ n ≤ k) := by
+/-- `okCount`: no maximum, or at most `k` members (a declared maximum of `0` admits no member: fix 6ddb0c4; the
+pre-fix class generator tested the truthiness of the maximum and emitted no `maxItems` for `0`) -/
+theorem okCount_iff (m : Option Nat) (n : Nat) : okCount m n = true ↔ (m = none ∨ ∃ k, m = some k ∧ n ≤ k) := by
   cases m with
   | none => exact ⟨fun _ => Or.inl rfl, fun _ => rfl⟩
   | some k =>
-    cases k with
-    | zero => exact ⟨fun _ => Or.inr (Or.inl rfl), fun _ => rfl⟩
-    | succ k =>
-      constructor
-      · intro h
-        have : n ≤ k + 1 := by simpa [okCount] using h
-        exact Or.inr (Or.inr ⟨k + 1, rfl, this⟩)
-      · rintro (h | h | ⟨k', h, hk⟩)
-        · cases h
-        · cases h
-        · cases h; simpa [okCount] using hk
+    constructor
+    · intro h
+      have : n ≤ k := by simpa [okCount] using h
+      exact Or.inr ⟨k, rfl, this⟩
+    · rintro (h | ⟨k', h, hk⟩)
+      · cases h
+      · cases h; simpa [okCount] using hk
+
+/-- a field declared with maximum multiplicity `0` holds no asset -/
+theorem max_zero_admits_nothing (n : Nat) : okCount (some 0) n = true ↔ n = 0 := by
+  simp [okCount]
 
 /-- no two associations of the model of the same class link the same pair of assets -/
 theorem no_duplicate_link (L : Lang) (s : St) (hv : Valid L s) (l l' : Nat) (hl : l ∈ s.associations)
